@@ -257,10 +257,10 @@ theorem lexSoyDoc_sat {n : Int} {l0 l : Lexer} (hn : l.len = n ∧ (l.mp : Int) 
 /-! ### lexText -/
 
 /-- the loop of lexText started at `l0`: `start` stays put, `pos` moves on, and once a
-    character has been read (`lastChar ≠ 0`) the pending text is not empty -/
+    character has been read (`lastChar ≠ noChar`) the pending text is not empty -/
 theorem lexTextLoop_sat {n : Int} {l0 : Lexer} : ∀ (k : Nat) (l : Lexer) (lastChar : Int), l.rem = k →
     (l.len = n ∧ (l.mp : Int) ≤ n ∧ 0 ≤ l.tagStart ∧ l.tagStart ≤ n ∧ l.bad = 0 ∧ l.tagBad = 0) → 0 ≤ l.start → l.start ≤ l.pos → l.pos ≤ n → l0.pos ≤ l.pos →
-    (lastChar = 0 ∨ l.start < l.pos) → l.input = l0.input →
+    (lastChar = noChar ∨ l.start < l.pos) → l.input = l0.input →
     Sat (lexTextLoop l lastChar) (Post n .text l0) := by
   intro k
   induction k using Nat.strongRecOn with
@@ -288,12 +288,12 @@ theorem lexTextLoop_sat {n : Int} {l0 : Lexer} : ∀ (k : Nat) (l : Lexer) (last
           split
           · -- "//"
             dsimp only
-            generalize (if lastChar = 0 ∧ l2.lastEmit.val ≠ [] then
+            generalize (if lastChar = noChar ∧ l2.lastEmit.val ≠ [] then
               (((l2.lastEmit.val.getLast?.getD 0).toNat : Nat) : Int) else lastChar) = lce
             split
             · obtain ⟨l3, e3, hl3, hp3, hw3, hs3⟩ := maybeEmitText_ex (l := l2) (k := 3) (by lx) (by omega) (by lx)
               simp only [e3]
-              by_cases hlc : lastChar = 0
+              by_cases hlc : lastChar = noChar
               · simp only [hlc, ne_eq, not_true_eq_false, if_false]
                 exact lexLineComment_sat (by lx) (by lx) (by lx) (by lx) (by lx) (by inq)
               · simp only [ne_eq, hlc, not_false_eq_true, if_true]
@@ -384,7 +384,7 @@ theorem lexText_ok {n : Int} {l : Lexer} (hg : Good n l) :
     Sat (lexText l) (Post n .text l) := by
   obtain ⟨hn, hs0, hsp, hpn⟩ := hg
   unfold lexText
-  exact lexTextLoop_sat _ l 0 rfl hn hs0 hsp hpn (Int.le_refl _) (Or.inl rfl) rfl
+  exact lexTextLoop_sat _ l noChar rfl hn hs0 hsp hpn (Int.le_refl _) (Or.inl rfl) rfl
 
 /-! ### every state function -/
 
@@ -396,7 +396,7 @@ theorem step_ok {n : Int} (s : St) {l : Lexer} (hg : Good n l) (hx : Extra s l) 
   | rightDelimEnd => exact lexRightDelimEnd_ok hg
   | beginTag => exact lexBeginTag_ok hg hx
   | insideTag => exact lexInsideTag_ok hg hx
-  | ident => exact lexIdent_ok hg
+  | ident => exact lexIdent_ok hg hx
   | number => exact lexNumber_ok hg
   | headerParam => exact lexHeaderParam_ok hg
   | css => exact lexCss_ok hg
